@@ -410,7 +410,8 @@ def rule_extidx(ctx, py):
                     bound = any(t in pyfe.src(n.value) for t in ("system.network", "self.network", "network."))
                     ctx.ok(R, n, f2._qual, pyfe.src(n)[:70], "environment index taken from the space of the same "
                            "system (validated at RDSystem construction)", nontrivial=False)
-    ctx.need(uses >= 4, R, "only %d uses of an environment index found" % uses)
+    # (an inventory, not an obligation: fewer uses mean fewer places where an unchecked index could matter)
+    ctx.need(uses >= 1, R, "no use of an environment index found")
     ctx.floor(R, 6)
 
 
